@@ -29,6 +29,8 @@ inductive Loc where
   | mkey (ci j i : Nat)
   | mval (ci j i : Nat)
   | mnext (ci j : Nat)
+  /-- counter stripe `table.size[i].c` -/
+  | stripe (i : Nat)
   deriving DecidableEq, Repr
 
 inductive Val (K V : Type) where
@@ -64,6 +66,9 @@ inductive Val (K V : Type) where
   allocates a fresh value, so in one heap two cells never hold the same pointer), with the value it points to -/
   | keyPtr (k : K)
   | valPtr (ci j i : Nat) (v : V)
+  /-- the slice `table.size` of counter stripes, and one element of it -/
+  | stripes
+  | stripeRef (i : Nat)
 
 structure Heap (K V : Type) where
   chains : List (List (BucketOf K V))
@@ -71,6 +76,8 @@ structure Heap (K V : Type) where
   hasher : K → BitVec 64 → BitVec 64
   /-- the table of a `Map` (string keys): chains of `BucketM` -/
   mchains : List (List (BucketM K V)) := []
+  /-- the counter stripes `table.size[i].c` (unbounded integers: the counters never come near 2^63) -/
+  stripes : List Int := []
 
 variable {K V : Type} [DecidableEq K]
 
@@ -153,6 +160,7 @@ def binop (op : BOp) (a b : Val K V) : Option (Val K V) :=
   | .ne, .key x, .key y => some (.bool (!decide (x = y)))
   | .land, .bool x, .bool y => some (.bool (x && y))
   | .lt, .int x, .int y => some (.bool (decide (x < y)))
+  | .add, .int x, .int y => some (.int (x + y))
   -- two value pointers of `Map`: the same cell
   | .eq, .valPtr ci j i _, .valPtr ci' j' i' _ => some (.bool (decide (ci = ci' ∧ j = j' ∧ i = i')))
   -- pointer against nil (pointers to different kinds of object are never compared by the lookup path)
@@ -174,6 +182,8 @@ def conv (t : String) (v : Val K V) : Option (Val K V) :=
   | "*bucketPadded", .ptrNil => some .ptrNil
   | "uintptr", .valPtr ci j i v => some (.valPtr ci j i v)
   | "uintptr", .ptrNil => some .ptrNil
+  | "int64", .int n => some (.int n)
+  | "int", .int n => some (.int n)
   | _, _ => none
 
 def selField (h : Heap K V) (v : Val K V) (f : String) : Option (Val K V) :=
@@ -191,12 +201,12 @@ def selField (h : Heap K V) (v : Val K V) (f : String) : Option (Val K V) :=
 
 /-- the address `&e` of the addressable expressions of the lookup path -/
 def addrOf (base : Val K V) (f : String) : Option (Val K V) :=
-  match base, f with
-  | .bucketRef ci j, "meta" => some (.loc (.metaw ci j))
-  | .bucketRef ci j, "next" => some (.loc (.next ci j))
-  | .mbucketRef ci j, "topHashMutex" => some (.loc (.mword ci j))
-  | .mbucketRef ci j, "next" => some (.loc (.mnext ci j))
-  | _, _ => none
+  match base with
+  | .bucketRef ci j => if f = "meta" then some (.loc (.metaw ci j)) else if f = "next" then some (.loc (.next ci j)) else none
+  | .mbucketRef ci j =>
+    if f = "topHashMutex" then some (.loc (.mword ci j)) else if f = "next" then some (.loc (.mnext ci j)) else none
+  | .stripeRef i => if f = "c" then some (.loc (.stripe i)) else none
+  | _ => none
 
 def atomicLoad (h : Heap K V) (kind : String) (a : Val K V) : Option (Val K V) :=
   match kind, a with
@@ -215,6 +225,7 @@ def atomicLoad (h : Heap K V) (kind : String) (a : Val K V) : Option (Val K V) :
     | some c => if j + 1 < c.length then some (.bucketRef ci (j + 1)) else if j < c.length then some .ptrNil else none
     | none => none
   -- `Map`: the table pointer is the same cell `m.table`; which kind of table it is shows in the conversion applied
+  | "Int64", .loc (.stripe i) => h.stripes[i]?.map .int
   | "Uint64", .loc (.mword ci j) => (mbucketAt h ci j).map fun b => .w64 b.word
   | "Pointer", .loc (.mkey ci j i) =>
     match mbucketAt h ci j with
@@ -268,7 +279,11 @@ def eval (h : Heap K V) (env : Env K V) : Expr → Option (Val K V)
     | _ => none
   | .conv t e => (eval h env e).bind (conv t)
   | .sel e f => (eval h env e).bind (selField h · f)
-  | .index _ _ => none  -- only under `&`: see `addr`
+  | .index e i =>
+    -- an element of `table.size` (to take the address of its field); the bucket arrays only under `&`: see `addr`
+    match eval h env e, eval h env i with
+    | some .stripes, some (.int n) => if 0 ≤ n ∧ n.toNat < h.stripes.length then some (.stripeRef n.toNat) else none
+    | _, _ => none
   | .addr (.recvField "table") => some (.loc .table)
   | .addr (.sel e f) => (eval h env e).bind (addrOf · f)
   | .addr (.index e i) =>
@@ -282,6 +297,7 @@ def eval (h : Heap K V) (env : Env K V) : Expr → Option (Val K V)
     | _, _ => none
   | .addr _ => none
   | .atomicLoad kind a => (eval h env a).bind (atomicLoad h kind)
+  | .recvField "size" => some .stripes
   | .recvField _ => none
 
 def evalList (h : Heap K V) (env : Env K V) : List Expr → Option (List (Val K V))
@@ -309,6 +325,16 @@ def loopN (body : Env K V → Option (Out K V)) : Nat → Env K V → Option (Ou
     | some (.cont env') => loopN body n env'
     | some (.goto l env') => some (.goto l env')
     | none => none
+
+/-- `for x := range xs`: the body once per index, in a scope of its own -/
+def forIdx (x : String) (body : Env K V → Option (Out K V)) : List Nat → Env K V → Option (Out K V)
+  | [], env => some (.normal env)
+  | i :: rest, env =>
+    match body ((x, .int i) :: env) with
+    | some (.normal env') => forIdx x body rest (env'.drop (env'.length - env.length))
+    | some (.cont env') => forIdx x body rest (env'.drop (env'.length - env.length))
+    | some (.brk env') => some (.normal (env'.drop (env'.length - env.length)))
+    | r => r
 
 /-- the statements after a label, re-entered by `goto l` (at most `n` times) -/
 def labelN (l : String) (body : Env K V → Option (Out K V)) : Nat → Env K V → Option (Out K V)
@@ -372,6 +398,10 @@ def exec (fuel : Nat) (h : Heap K V) (res : List String) : Stmt → Env K V → 
         loopN (iter3 (fun env => eval h env c) (fun env => exec fuel h res body env) (fun env => exec fuel h res post env))
           fuel env1
       | r => r)
+  | .rangeIdx x e body, env =>
+    match eval h env e with
+    | some .stripes => forIdx x (fun env => exec fuel h res body env) (List.range h.stripes.length) env
+    | _ => none
   | .continue, env => some (.cont env)
   | .incr x, env =>
     match env.lookup x with
@@ -385,6 +415,7 @@ def zeroOf : Ty → Val K V
   | .userV => .zeroV
   | .bool => .bool false
   | .key => .zeroV
+  | .int => .int 0
 
 /-- one call: the parameters and the named results (zero values) are the outermost scope -/
 def call (fuel : Nat) (h : Heap K V) (d : FuncDecl) (args : List (Val K V)) : Option (List (Val K V)) :=
